@@ -1046,8 +1046,13 @@ func (g *Gen) genFamily(fam string) (Op, bool) {
 			a := g.pick(and(isDt("float64"), dimsIs(2)))
 			if a >= 0 {
 				op := Op{Name: "FromMat64", In: []int{a}, Out: g.newSlot()}
-				if r.Intn(3) == 0 && !g.tainted(a) {
-					op.Mode = "unsafe"
+				switch r.Intn(3) {
+				case 0:
+					if !g.tainted(a) {
+						op.Mode = "unsafe"
+					}
+				case 1:
+					op.Mode = "mixed"
 				}
 				return op, true
 			}
@@ -1072,6 +1077,9 @@ func (g *Gen) genFamily(fam string) (Op, bool) {
 				a = g.pick(nil)
 			}
 			op := Op{Name: "ToMat64", In: []int{a}, Out: -1}
+			if r.Intn(4) == 0 && !g.tainted(a) {
+				op.Mode = "unsafe"
+			}
 			return op, true
 		}
 		a := g.pick(func(t *tensor.Dense) bool { return t.Dims() >= 1 && t.Dims() <= 3 })
